@@ -26,6 +26,7 @@ export const NEEDS = {
   identAfterAssign: { jsx: '<A0>{cap0}</A0>', decl: 'let cap0 = "c";\ncap0 = "d";' },
   identAfterAssignInFn: { jsx: '<A0>{cap1}</A0>', decl: 'let cap1 = "c";\nfunction setCap() { cap1 = "d"; }' },
   reassignOuter: { jsx: null, reassign: 'outer' },
+  reassignParam: { jsx: null, reassign: 'param' },
   reassignSameList: { jsx: null, reassign: 'same' },
 };
 
@@ -72,7 +73,19 @@ export const CONTEXTS = {
   callArg: (J) => `const idf = (x) => x;\nexport const t0 = () => idf(${J});`,
   arrayElem: (J) => `const arr = [${J}];\nexport const t0 = () => arr[0];`,
   moduleLevelLet: (J) => `let v0;\nv0 = ${J};\nexport const t0 = () => v0;`,
+  fnBodyInner: (J) => `export function t0() {\n  /*PRE*/\n  const r = ${J};\n  /*POST*/\n  return r;\n}`,
+  arrowBlockInner: (J) => `export const t0 = () => {\n  /*PRE*/\n  const r = ${J};\n  /*POST*/\n  return r;\n};`,
+  methodInner: (J) => `class K { m() {\n  /*PRE*/\n  const r = ${J};\n  /*POST*/\n  return r;\n} }\nexport const t0 = () => new K().m();`,
+  nestedBlockInner: (J) => `export function t0() {\n  let r;\n  {\n    /*PRE*/\n    r = ${J};\n    /*POST*/\n  }\n  return r;\n}`,
 };
+
+// statements placed in the SAME statement list as the JSX, before / after it
+export const INNER_SIBLINGS = [
+  '', 'const sq = (n) => n * 2;', 'const sq2 = (n) => (m) => n * m;', 'function innerFn() { return 1; }', '{ let q = 1; q++; }',
+  'if (typeof t0 !== "undefined") { Math.max(1, 2); }', 'for (let i = 0; i < 1; i++) { Math.min(i, 1); }', 'try { Math.abs(1); } catch (e) { Math.abs(2); }',
+  'const otherJsx = () => <B9>{g9()}</B9>;', 'const ob = { m() { return 1; }, a: () => 2 };', 'class In { f = 1; m() { return 2; } }',
+  'switch (1) { case 1: { break; } default: { break; } }', 'lbl: { break lbl; }', 'const nested = function () { return () => 3; };', 'let cnt = 0; cnt = cnt + 1;',
+];
 
 export const SIBLINGS = {
   none: '',
@@ -89,7 +102,7 @@ export const SIBLINGS = {
   ifStmt: 'if (typeof sib1 === "undefined") { var z = 1; }',
 };
 
-const COLLIDERS = ['_createVNode', '_slot', '_slot2', '_isSlot', '_Fragment', '$event', 's', '_resolveComponent', '_transformOn', '_mergeProps', '_a', '_tv0', '_createTextVNode', '_isVNode', '_withDirectives'];
+const COLLIDERS = ['_x', '_createVNode', '_slot', '_slot2', '_isSlot', '_Fragment', '$event', 's', '_resolveComponent', '_transformOn', '_mergeProps', '_a', '_tv0', '_createTextVNode', '_isVNode', '_withDirectives'];
 
 const ENV = {
   globals: {
@@ -100,7 +113,7 @@ const ENV = {
   modules: { 'probe:C0': { default: { k: 'comp', id: 'C0' } } },
 };
 
-function buildCase(needName, ctxName, before, after, colliders, colliderPlace) {
+function buildCase(needName, ctxName, before, after, colliders, colliderPlace, innerPick = () => '') {
   const need = NEEDS[needName];
   const lines = [];
   for (const i of need.imports || []) lines.push(`import ${i} from "probe:${i}";`);
@@ -118,9 +131,11 @@ function buildCase(needName, ctxName, before, after, colliders, colliderPlace) {
   if (need.decl) lines.push(need.decl);
   if (SIBLINGS[before]) lines.push(SIBLINGS[before]);
   if (need.reassign === 'same') {
-    lines.push(`export function t0() {\n  let x = "prev";\n  x = "prev2";\n  x = <A0${collAttrs}>{x}</A0>;\n  return x;\n}`);
+    lines.push(`export function t0() {\n  let x = "prev";\n  x = "prev2";\n  /*PRE*/\n  x = <A0${collAttrs}>{x}</A0>;\n  /*POST*/\n  return x;\n}`);
+  } else if (need.reassign === 'param') {
+    lines.push(`function inner(x) {\n  /*PRE*/\n  x = <A0${collAttrs}>{x}</A0>;\n  /*POST*/\n  return x;\n}\nexport const t0 = () => inner("prev");`);
   } else if (need.reassign === 'outer') {
-    lines.push(`let x = "prev";\nexport function t0() {\n  x = <A0${collAttrs}>{x}</A0>;\n  return x;\n}`);
+    lines.push(`let x = "prev";\nexport function t0() {\n  /*PRE*/\n  x = <A0${collAttrs}>{x}</A0>;\n  /*POST*/\n  return x;\n}`);
   } else {
     let body = CONTEXTS[ctxName](J);
     if (colliderPlace === 'inner' && coll.length) {
@@ -133,7 +148,11 @@ function buildCase(needName, ctxName, before, after, colliders, colliderPlace) {
     lines.push(body);
   }
   if (SIBLINGS[after]) lines.push(SIBLINGS[after].replace(/sib(\d)/g, 'sibB$1').replace(/\bother\b/, 'otherB').replace(/\bfr\b/, 'frB').replace(/\bSib\b/, 'SibB').replace(/sibX/g, 'sibY').replace(/\bq\b/g, 'q2'));
-  return { src: lines.join('\n') + '\n', colliders: collApplied ? coll : [], thunk: /export default/.test(lines.join('\n')) ? 'default' : 't0' };
+  let text = lines.join('\n') + '\n';
+  const innerUsed = [];
+  const usedPicks = new Set();
+  text = text.replace(/\/\*(PRE|POST)\*\//g, () => { let pick = innerPick(); if (usedPicks.has(pick)) pick = ''; usedPicks.add(pick); innerUsed.push(pick ? pick.split(/[ (]/)[0] + pick.length : '-'); return pick; });
+  return { src: text, innerUsed, colliders: collApplied ? coll : [], thunk: /export default/.test(lines.join('\n')) ? 'default' : 't0' };
 }
 
 export function* generate({ tier, seed }) {
@@ -141,12 +160,12 @@ export function* generate({ tier, seed }) {
   let n = 0;
   const needs = Object.keys(NEEDS), ctxs = Object.keys(CONTEXTS), sibs = Object.keys(SIBLINGS);
   const emit = (need, ctx, before, after, colliders, place, optsList) => {
-    const c = buildCase(need, ctx, before, after, colliders, place);
+    const c = buildCase(need, ctx, before, after, colliders, place, () => rng.pick(INNER_SIBLINGS));
     if (!c) return null;
     const baseOpts = NEEDS[need].options || {};
     return {
       gid: `C06-${n++}`, src: c.src, syntax: 'jsx', spec: { env: ENV, thunk: c.thunk, colliders: c.colliders, need, ctx },
-      feature: `${need}|${NEEDS[need].reassign ? '-' : ctx}|${before}|${after}|${colliders.length ? place + ':' + colliders.join('+') : '-'}`,
+      feature: `${need}|${NEEDS[need].reassign ? '-' : ctx}|${before}|${after}|${colliders.length ? place + ':' + colliders.join('+') : '-'}|in=${c.innerUsed.join(',')}`,
       variants: optsList.map((o, i) => ({ vid: `v${i}`, options: { ...baseOpts, ...o } })),
     };
   };
@@ -160,6 +179,12 @@ export function* generate({ tier, seed }) {
   for (const need of needs) for (const ctx of (NEEDS[need].reassign ? ['fnBody'] : ctxs)) for (const b of sibs) for (const a of sibs) if (b !== 'none' || a !== 'none') combos.push([need, ctx, b, a]);
   const pick = tier === 'quick' ? rng.shuffle(combos).slice(0, 2500) : combos;
   for (const [need, ctx, b, a] of pick) { const g = emit(need, ctx, b, a, [], 'module', [rng.pick(O)]); if (g) yield g; }
+  // 2b. every need in the contexts that take siblings inside the same statement list, many sibling draws
+  const innerCtxs = ['fnBodyInner', 'arrowBlockInner', 'methodInner', 'nestedBlockInner'];
+  const nInner = tier === 'quick' ? 8 : 60;
+  for (const need of needs) for (const ctx of (NEEDS[need].reassign ? ['fnBody'] : innerCtxs)) for (let k = 0; k < nInner; k++) {
+    const g = emit(need, ctx, 'none', 'none', [], 'module', [rng.pick(O)]); if (g) yield g;
+  }
   // 3. colliding user names
   const nColl = tier === 'quick' ? 1500 : 20000;
   for (let i = 0; i < nColl; i++) {
